@@ -610,6 +610,12 @@ def _access_path(F, f, e, env, depth=0):
             return env[e["id"]]
         if e.get("rk") == "Param":
             return ()
+        # a local that merely names (a cast of) the handle or a sub-object: follow its initialiser
+        for n in walk(f["body"]):
+            if n.get("k") == "DeclStmt":
+                for d in n.get("decls", ()):
+                    if d.get("id") == e.get("id") and d.get("init") is not None:
+                        return _access_path(F, f, d["init"], env, depth + 1)
         return None
     if k == "UnaryOperator" and e.get("op") == "*":
         return _access_path(F, f, e["c"][0], env, depth + 1)
@@ -660,6 +666,9 @@ def _setter_effect(F, f, env, depth=0):
     for st in f["body"].get("c", []):
         st0 = strip_all(st)
         k = st0.get("k")
+        if k == "DeclStmt" and all(d.get("init") is None or not any(is_call(x) and x.get("mg") in F.functions
+                                                                     for x in walk(d["init"])) for d in st0.get("decls", ())):
+            continue                     # local alias of the handle: no effect on the model
         if k in ("BinaryOperator",) and st0.get("op") == "=":
             path = _access_path(F, f, st0["c"][0], env)
             v = strip_all(st0["c"][1])
